@@ -6,6 +6,10 @@ ROOT = os.path.dirname(os.path.dirname(os.path.abspath(__file__)))
 
 # id -> (level category, level text, level note, technique, design ref)
 CHECKS = {
+ "C04": ("exploration",
+   "Upload scenarios (content, partition into Write calls, chunk-size hint, subset of write boundaries with close-and-resume incl. just before Commit, resume mode at-Size / -1, fault none / wrong-offset resume / wrong commit digest) judged by a shadow of the bytes written. Enumerated completely for content lengths 0..6 (quick) / 0..9 (thorough) on ocimem and 0..5 / 0..7 over one HTTP hop; 8e3 / 2e5 sampled scenarios over loopback HTTP, two hops, debug, sub, unify and http(unify), with contents up to 5 registry chunks and hints around the 8 KiB minimum.",
+   "Trusted: the shadow byte log. Resume with -1 after exactly one received byte is excluded (the property's own exclusion). A wrong-offset resume may surface at Write, Close or Commit of that writer.",
+   "runtime monitor: shadow-state oracle over enumerated + sampled upload scenarios", "3/C04"),
  "C15": ("exploration",
    "Race-detector build. A: 120/2e4 pairs of member states (equal, disjoint repositories, overlapping with seeded agreeing and conflicting tags, one empty) built by direct histories; every read, resolve, range read and listing over the universe goes through the unifier under both read policies and is compared with the union of the members' own answers. B: 400/1e4 write histories (all write methods, composite and fine-grained chunked uploads through the composite ID, deletes) over two recording members that start equal, a third with an injected failure in one member: every write must reach both members with equal arguments, success only if both succeeded, members observably equal after fault-free prefixes.",
    "Trusted: the members' own direct answers as ground truth for the union; rec as the observation point. Manifest media types are not compared between members; after an injected failure divergence is allowed.",
